@@ -23,18 +23,151 @@ TARGETS = [
         ("VelocityControl", "velocity", "C12", "C12_gen_velocity"),
         ("VelocityControl", "insert", "C12", "C12_gen_insert"),
     ]),
+    dict(area="Simple", rel="vls-core/src/policy/simple_validator.rs", consts=["vls-core/src/policy/mod.rs"], externals={}, fns=[
+        ("SimpleValidator", "validate_delay", "C05", "C05_gen_validate_delay"),
+        ("SimpleValidator", "validate_expiry", "C05", "C05_gen_validate_expiry"),
+        ("SimpleValidator", "validate_fee", "C05", "C05_gen_validate_fee"),
+    ]),
+    dict(area="TxUtil", rel="vls-core/src/util/transaction_utils.rs", consts=[], externals={}, fns=[
+        ("", "expected_commitment_tx_weight", "C05", "C05_gen_commitment_weight"),
+    ]),
+    dict(area="Tx", rel="vls-core/src/tx/tx.rs", consts=[], externals={}, fns=[
+        ("CommitmentInfo2", "value_to_parties", "C05", "C05_gen_value_to_parties"),
+        ("CommitmentInfo2", "total_value", "C05", "C05_gen_total_value"),
+    ]),
+    dict(area="Monitor", rel="vls-core/src/monitor.rs", consts=[], externals={}, fns=[
+        ("State", "depth_of", "C15", "C15_gen_depth_of"),
+        ("State", "deep_enough_and_saw_node_forget", "C15", "C15_gen_deep_enough"),
+        ("State", "is_done", "C15", "C15_gen_is_done"),
+    ]),
 ]
+
+
+class Codec:
+    """Lean decoder/encoder terms for the types of one unit (driver model `fngen`)"""
+
+    def __init__(self, unit, area):
+        self.u, self.area = unit, area
+        self.defs = []      # Lean lines
+        self.done = set()
+
+    def lean_ty(self, t):
+        u = self.u
+        if t[0] == "struct":
+            ops = u.opaques_of(t, [])
+            return "(Fn%s.%s%s)" % (self.area, t[1], "".join(" Nat" for _ in ops))
+        if t[0] == "enum": return "Fn%s.%s" % (self.area, t[1])
+        if t[0] == "opaque": return "Nat"
+        if t[0] == "opt": return "(Option %s)" % self.lean_ty(t[1])
+        if t[0] == "vec": return "(List %s)" % self.lean_ty(t[1])
+        if t[0] == "tuple": return "(" + " × ".join(self.lean_ty(x) for x in t[1]) + ")"
+        return u.lt(t, False)
+
+    def named(self, t):
+        name = "%s_%s" % (self.area, t[1])
+        if name in self.done: return name
+        self.done.add(name)
+        u = self.u
+        L = []
+        if t[0] == "enum":
+            vs = u.fi.enums[t[1]]
+            ty = self.lean_ty(t)
+            L.append("def dec_%s : Dec %s" % (name, ty))
+            for i, v in enumerate(vs):
+                L.append("  | \"%d\" :: r => some (.%s, r)" % (i, v))
+            L.append("  | _ => none")
+            L.append("def enc_%s : %s → String" % (name, ty))
+            for i, v in enumerate(vs):
+                L.append("  | .%s => \"%d\"" % (v, i))
+        else:
+            fields = [f for f, _ in u.fi.structs[t[1]] if f in u.used_fields.get(t[1], [])]
+            fts = [u.struct_field(t[1], f) for f in fields]
+            decs = [self.dec(x) for x in fts]
+            encs = [self.enc(x) for x in fts]
+            ty = self.lean_ty(t)
+            L.append("def dec_%s : Dec %s := fun ts => do" % (name, ty))
+            for i, d in enumerate(decs):
+                L.append("  let (a%d, ts) ← %s ts" % (i, d))
+            from rs2lean import lid
+            L.append("  pure ({ %s }, ts)" % ", ".join("%s := a%d" % (lid(f), i) for i, f in enumerate(fields)) if fields
+                     else "  pure (⟨⟩, ts)")
+            L.append("def enc_%s (x : %s) : String :=" % (name, ty))
+            L.append("  \"{\" ++ \" \".intercalate [%s] ++ \"}\"" % ", ".join("%s x.%s" % (e, lid(f)) for e, f in zip(encs, fields)))
+        self.defs += L + [""]
+        return name
+
+    def dec(self, t):
+        k = t[0]
+        if k == "int": return "decNat" if t[1][0] == "u" else "decInt"
+        if k == "bool": return "decBool"
+        if k == "str": return "decStr"
+        if k == "unit": return "decUnit"
+        if k == "opaque": return "decNat"
+        if k == "opt": return "(decOpt %s)" % self.dec(t[1])
+        if k == "vec": return "(decList %s)" % self.dec(t[1])
+        if k == "tuple":
+            ds = [self.dec(x) for x in t[1]]
+            r = ds[-1]
+            for d in reversed(ds[:-1]): r = "(decPair %s %s)" % (d, r)
+            return r
+        if k in ("struct", "enum"): return "dec_" + self.named(t)
+        raise RsError("no decoder for %r" % (t,))
+
+    def enc(self, t):
+        k = t[0]
+        if k == "int": return "toString"
+        if k == "bool": return "encBool"
+        if k == "str": return "id"
+        if k == "unit": return "encUnit"
+        if k == "opaque": return "toString"
+        if k == "opt": return "(encOpt %s)" % self.enc(t[1])
+        if k == "vec": return "(encList %s)" % self.enc(t[1])
+        if k == "tuple":
+            es = [self.enc(x) for x in t[1]]
+            r = es[-1]
+            for e in reversed(es[:-1]): r = "(encPair %s %s)" % (e, r)
+            return r
+        if k in ("struct", "enum"): return "enc_" + self.named(t)
+        raise RsError("no encoder for %r" % (t,))
+
+
+def dispatch_for(unit, area, fns, arms, defs):
+    """adds the `call_…` definitions of the translated functions of one unit"""
+    cd = Codec(unit, area)
+    calls = []
+    for f in fns:
+        key = "%s.%s" % (area, f.lean_name)
+        if f.exts:
+            arms.append('  | "%s" :: _ => "nodriver"' % key)
+            continue
+        ident = "call_%s_%s" % (area, f.lean_name.replace(".", "_").replace("«", "").replace("»", ""))
+        L = ["def %s (ts : List String) : Option String := do" % ident]
+        names = []
+        for i, (pn, pt) in enumerate(f.params):
+            L.append("  let (a%d, ts) ← %s ts" % (i, cd.dec(pt)))
+            names.append("a%d" % i)
+        call = "Fn%s.%s %s" % (area, f.lean_name, " ".join(names))
+        enc = cd.enc(f.out_ty)
+        res = "encM %s (%s)" % (enc, call) if f.monadic else '"ok " ++ %s (%s)' % (enc, call)
+        L.append("  match ts with")
+        L.append("  | [] => some (%s)" % res)
+        L.append("  | _ => none")
+        calls += L + [""]
+        arms.append('  | "%s" :: ts => (%s ts).getD "badargs"' % (key, ident))
+    defs += cd.defs + calls
 
 
 def extract(repo):
     outputs, info = {}, {}
     summary = []
+    arms, ddefs, imports = [], [], []
     for tg in TARGETS:
         try:
             u = Unit(repo, tg["rel"], "VlsModel.Gen.Fn" + tg["area"], tg.get("consts", ()), tg.get("externals", {}))
         except (RsError, OSError) as e:
             raise ExtractError("x_fn: cannot index %s: %s" % (tg["rel"], e))
         for impl, name, prop, thm in tg["fns"]:
+            impl = impl or None
             f = u.try_fn(impl, name)
             qn = (impl + "::" if impl else "") + name
             ent = info.setdefault(prop, {"facts": {"fn_gen": {}}, "obligations": []})
@@ -54,4 +187,13 @@ def extract(repo):
             if thm:
                 ent["obligations"].append("Gen.Fn%s.%s = hand-written model (theorem %s)" % (tg["area"], f.lean_name, thm))
         outputs["Fn%s.lean" % tg["area"]] = u.emit()
+        imports.append("import VlsModel.Gen.Fn%s" % tg["area"])
+        dispatch_for(u, tg["area"], [u.fns[k] for k in u.order], arms, ddefs)
+    outputs["FnDispatch.lean"] = "\n".join(
+        ["import VlsModel.Drv.FnCodec"] + imports +
+        ["/-! Dispatch table of the driver model `fngen`: `<Area>.<function> <args…>` -> outcome of the generated",
+         "    definition (codec: Drv/FnCodec.lean).  Opaque type parameters are instantiated with `Nat`. -/",
+         "namespace VlsModel.Gen.FnDispatch", "open VlsModel VlsModel.Gen VlsModel.Drv.FnCodec", ""] + ddefs +
+        ["def dispatch : List String → String"] + arms + ['  | _ => "unknown-function"', "",
+         "end VlsModel.Gen.FnDispatch"]) + "\n"
     return outputs, info
